@@ -791,6 +791,16 @@ pub fn c18_monitor(ctx: &mut Ctx, o: &Outcome, tx: &Tx, ring: &KeyRing) {
             _ => ctx.violation(&format!("script/available-more-than-once/{}", purpose(*t)), detail(o)),
         }
     }
+    // a datum supplied "through a reference input": that reference input is in the body
+    for (inp, dref) in &o.datum_refs {
+        if ins.contains(inp) {
+            if refs.contains(dref) || ins.contains(dref) {
+                ctx.bucket("c18.datum-reference-input-in-body");
+            } else {
+                ctx.violation("datum/declared-reference-input-not-in-body", detail(o));
+            }
+        }
+    }
     // redeemer for every plutus use
     let reds = tx.redeemers();
     for (t, i, h) in &need.scripts {
